@@ -1,0 +1,83 @@
+//go:build verif
+
+package compile
+
+import "fmt"
+
+// LinkStep names one top-level entity of a loaded module.
+// Kind is "type", "constant" or "service".
+type LinkStep struct {
+	Module string // Module.Name
+	Kind   string
+	Name   string
+}
+
+// CompileWithLinkOrder is Compile with a chosen resolution order: after
+// loading, the named entities are linked in the order given, exactly the way
+// compiler.link links them while it ranges over the module's maps; the
+// unmodified link pass then runs over everything (entities linked already are
+// skipped by linkOnce). This makes the map iteration order of the linker, which
+// is otherwise random, reproducible for the verification harness.
+func CompileWithLinkOrder(path string, steps []LinkStep, opts ...Option) (*Module, error) {
+	c := newCompiler()
+	for _, opt := range opts {
+		opt(&c)
+	}
+
+	m, err := c.load(path)
+	if err != nil {
+		return nil, err
+	}
+
+	byName := make(map[string]*Module)
+	for _, mod := range c.Modules {
+		byName[mod.Name] = mod
+	}
+
+	for _, st := range steps {
+		mod, ok := byName[st.Module]
+		if !ok {
+			return nil, fmt.Errorf("link order: unknown module %q", st.Module)
+		}
+		var lerr error
+		switch st.Kind {
+		case "type":
+			typ, ok := mod.Types[st.Name]
+			if !ok {
+				return nil, fmt.Errorf("link order: unknown type %q", st.Name)
+			}
+			mod.Types[st.Name], lerr = typ.Link(mod)
+		case "constant":
+			constant, ok := mod.Constants[st.Name]
+			if !ok {
+				return nil, fmt.Errorf("link order: unknown constant %q", st.Name)
+			}
+			lerr = constant.Link(mod)
+		case "service":
+			service, ok := mod.Services[st.Name]
+			if !ok {
+				return nil, fmt.Errorf("link order: unknown service %q", st.Name)
+			}
+			lerr = service.Link(mod)
+		default:
+			return nil, fmt.Errorf("link order: unknown kind %q", st.Kind)
+		}
+		if lerr != nil {
+			return m, compileError{
+				Target: mod.ThriftPath,
+				Reason: compileError{Target: st.Name, Reason: lerr},
+			}
+		}
+	}
+
+	err = m.Walk(func(m *Module) error {
+		if err := c.link(m); err != nil {
+			return compileError{
+				Target: m.ThriftPath,
+				Reason: err,
+			}
+		}
+		return nil
+	})
+	return m, err
+}
